@@ -60,6 +60,47 @@ CHECKS['C03'] = dict(
          'corpus numbers, labelled bounded.',
     note='Trusted: C14 (clean is map-then-delete) and determinism of callees (C13). Excluded by the property: ISAN, MEID, US SSN/ITIN/EIN/ATIN/TIN.',
     technique='data-flow (frame) obligation on the real AST + normalisation chains from symbolic execution')
+CHECKS['C04'] = dict(
+    category='proof', design_ref='DESIGN.md §C04',
+    text='On every accepting path of validate() (input x, value v) the real format() is executed symbolically on x and on v and validate() on '
+         'format(x), all under the path condition; the obligations are format(x) == format(v), validate(format(x)) == v and that none of them '
+         'raises. Refutations are replayed on the real functions.',
+    note='The four documented normalisations (ISMN, ISAN, ISIL, MEID) and options that change the number (isbn convert, imei add_check_digit) are '
+         'checked on the corpus only (bounded, not counted). Lengths whose accepting paths leave the subset are undecided. ' + _VF_NOTE,
+    technique='closure of format()/validate() executed symbolically under each accepting path condition, z3 entailment')
+CHECKS['C09'] = dict(
+    category='other', design_ref='DESIGN.md §C09',
+    text='Union wrappers (US TIN, Thai TIN, Belgian SSN, Spanish NIF) are verified by relational symbolic execution: wrapper and all constituent '
+         'validate() run on one unknown input in one path context, per input length, with the obligation accepts(W) <=> OR accepts(M_i). '
+         'Dispatch tables of EU VAT / VATIN / IBAN are evaluated on their complete finite key domains against what stdnum/<cc>/__init__.py binds. '
+         'Level other because the EU VAT / VATIN / IBAN / thin-wrapper result equalities are a bounded differential, not a proof.',
+    note='Relational runs cover normalised input lengths 0..16 (quick) / 0..24 (thorough); us.tin normalises the input in two incompatible ways and '
+         'is undecided (bounded stand-in only).',
+    technique='relational symbolic execution + exhaustive table evaluation + bounded differential')
+CHECKS['C11'] = dict(
+    category='other', design_ref='DESIGN.md §C11',
+    text='A closed predicate over the finite shipped data, evaluated exhaustively: strict line grammar, equal-length ordered endpoints, indentation '
+         'discipline, reachability of every entry through the real NumDB.info, and consumer witnesses (IBAN account accepted per country, GS1 AI '
+         'round trip, ISBN five parts, CFI attribute names).',
+    note='Evaluation, not SMT proof. Top levels with more than 3000 entries (OUI) are decided analytically for every entry and through the real '
+         'linear lookup for every k-th entry in the quick tier (all in thorough).',
+    technique='exhaustive evaluation of a data invariant through the real reader and lookup')
+CHECKS['C13'] = dict(
+    category='other', design_ref='DESIGN.md §C13',
+    text='Frame obligations for every function of the library and the WSGI file (writes to non-local state must be in the modifies clause, empty '
+         'except for the memo caches), memo-cache shape obligations (value a function of the key alone), freshness of what NumDB._find returns, '
+         'and a bounded dynamic test that mutates returned containers in place. Sequential histories only.',
+    note='THREAD SCHEDULES ARE NOT DECIDED: contracts have no concurrency semantics here; atomicity of dict operations and the import lock under '
+         'the GIL is an explicit assumption. The freshness analysis is syntactic.',
+    technique='write-effect (frame) analysis on the real ASTs + cache-shape obligations + bounded aliasing test')
+CHECKS['C18'] = dict(
+    category='other', design_ref='DESIGN.md §C18',
+    text='Contracts on the WSGI functions decided on their ASTs: status literal 200 on every response, the result list is the is_valid() '
+         'comprehension, escape-taint obligation on every HTML interpolation, typing obligation of html.escape on conversions (derived from how '
+         'format() passes them), template keys; plus a bounded native run of the real application over corpus and hostile queries.',
+    note='urllib.parse, json, html trusted. Availability of is_valid/compact/format on valid numbers is taken from C01/C04; their known findings '
+         '(int() limit) show up here as a listed finding.',
+    technique='AST contracts (typing, taint) + return-kind inference + bounded replay through the real application')
 PENDING = {
 }
 ALL = ['C%02d' % i for i in range(1, 19)]
